@@ -69,7 +69,8 @@ def grid_jobs(pairs: list[dict], quick: bool, rng: random.Random) -> list[dict]:
             continue
         cf, cg = str(d / f"canary_{i}"), f"REDU_CANARY_{i}"
         jobs.append({"id": f"grid:{pr['slot']}|{pr['payload']}", "kind": "grid", "slot": pr["slot"], "payload": pr["payload"],
-                     "src": R.render(pr["slot"], pr["payload"], cf, cg), "canary_file": cf, "canary_global": cg})
+                     "src": R.render(pr["slot"], pr["payload"], cf, cg), "canary_file": cf, "canary_global": cg,
+                     "markers": list(R.PAYLOAD[pr["payload"]][3]) if len(R.PAYLOAD[pr["payload"]]) > 3 else []})
     return jobs
 
 
